@@ -38,6 +38,7 @@ func main() {
 	replay := flag.String("replay", "", "replay file: re-decide the recorded construct")
 	list := flag.Bool("list", false, "print every obligation")
 	dumpFuncs := flag.Bool("dump-funcs", false, "print the list of functions of the tree (pinnedfuncs.json is generated from the pinned tree with this)")
+	dumpAccepted := flag.Bool("dump-accepted", false, "print the validator's accepted set per profile class (acceptedset.json is generated from the pinned tree with this)")
 	dumpLocals := flag.Bool("dump-locals", false, "print the local-name slot table of the tree (localnames.json is generated from the pinned tree with this)")
 	sym := flag.String("sym", "", "diagnostic: print the symbolic path terms of the named fit functions (comma separated)")
 	flag.Parse()
@@ -50,6 +51,13 @@ func main() {
 	}
 	if *dumpFuncs {
 		if err := funcsDump(*repo); err != nil {
+			fmt.Fprintln(os.Stderr, err)
+			os.Exit(2)
+		}
+		return
+	}
+	if *dumpAccepted {
+		if err := acceptedDump(*repo); err != nil {
 			fmt.Fprintln(os.Stderr, err)
 			os.Exit(2)
 		}
